@@ -1,0 +1,32 @@
+"""Verification hooks (inert unless ICALENDAR_VERIF=1 is set in the environment).
+
+A harness installs a sink with set_sink(); instrumented code calls emit() after a
+state change.  Without the guard, ENABLED is False and no hook site does anything.
+"""
+import os
+
+ENABLED = os.environ.get("ICALENDAR_VERIF") == "1"
+
+_sink = None
+_seq = 0
+
+
+def set_sink(sink):
+    """Install (or remove, with None) the function receiving the events."""
+    global _sink, _seq
+    _sink = sink
+    _seq = 0
+
+
+def emit(event, **fields):
+    """Hand one event to the sink, numbered in call order."""
+    global _seq
+    if _sink is None:
+        return
+    _seq += 1
+    fields["ev"] = event
+    fields["seq"] = _seq
+    _sink(fields)
+
+
+__all__ = ["ENABLED", "emit", "set_sink"]
